@@ -137,5 +137,15 @@ PROPS['C05'] = dict(
     harness=True, bound='<= 4 students x <= 3 projects x <= 3 lecturers, two-sided, -stab with 0-1 criteria, real CBC; all stable matchings enumerated',
     budget={'quick': 25, 'thorough': 300}, trusted=T_LP,
     assumptions=['semantic equivalence of the alpha/beta/gamma system with the blocking-pair definition: bounded stand-in only'])
+PROPS['C14'] = dict(
+    title='A run that was cut short or proved infeasible never presents a matching',
+    functions=[LP + 'perform_optimisation', LP + 'optimisation_generous', LP + 'optimisation_greedy', LP + 'run_optimisations', LP + 'run', MOD + 'get_results',
+               MOD + '_get_pair_assignments'],
+    lemmas=['SUM/ext'], level='other',
+    level_text='the outcome of every prob.solve is arbitrary (any status code, any reported values; ghost history hist): proved for every number and kind of fault and every criteria sequence: after a solve whose status is not Optimal no further solve happens (generous / greedy per-rank loops, run_optimisations), run returns the status of the last = first failing solve, and Model.get_results shows a matching or statistics only when the stored status is Optimal and no timeout applies, the Timeout line exactly when a limit is set and the status is Not Solved or the elapsed time exceeds the limit, otherwise the stored status.  NOT proved deductively (bounded stand-in): Solver.solve storing run\'s result and the clock values in the model, and the clock axiom T4 for time-limit stops with an incumbent',
+    harness=True, bound='<= 4 students x <= 3 projects x <= 3 lecturers, 0-3 criteria, fault at solve number 0..4, 4-5 kinds, transient / persistent, pairs of faults',
+    budget={'quick': 30, 'thorough': 400},
+    trusted=T_LP + ['T4 clock axiom: a time-limit stop consumes at least timeLimit seconds (harness advances a fake clock)', 'T12 datetimes modelled as seconds'],
+    assumptions=['Solver.solve glue (status and times stored in the model): bounded stand-in only'])
 NOT_APPLICABLE = {}
 NOTES = 'see DESIGN.md; ./check Cxx --tier quick|thorough; exit 0 held / 1 VIOLATION / 2 undecided / 3 checker error'
